@@ -154,9 +154,10 @@ def random_spec(rng, struct):
              "alpha": [u(1.5, 3.0), u(2.0, 4.0), u(0.5, 0.9)],
              "beta": [u(1.5, 2.5), u(0.1, 0.3), u(1.0, 1.6)]}
     elif struct == "omae_v_hs":
-        p = {"v": [u(8.0, 12.0), u(2.0, 2.8), u(0.8, 1.5)],
-             "alpha": [u(0.3, 0.6), u(0.05, 0.15), u(1.2, 1.6)],
-             "beta": [u(0.6, 1.0), u(1.5, 2.5), u(-0.3, -0.15), u(14.0, 20.0)]}
+        # around the published OMAE 2020 V-Hs parameters (so that a fit of the predefined structure to simulated data converges)
+        p = {"v": [u(9.0, 11.0), u(2.2, 2.6), u(0.7, 0.85)],
+             "alpha": [u(0.35, 0.45), u(0.015, 0.02), u(1.8, 1.95)],
+             "beta": [u(0.5, 0.65), u(1.7, 2.1), u(-0.28, -0.22), u(8.0, 9.0)]}
     elif struct == "indep2":
         p = {"d0": [u(1.5, 3.0), u(1.2, 1.8), u(0.0, 1.0)], "d1": [u(0.5, 2.0), u(0.2, 0.6)]}
     elif struct == "chain3":  # conditional_on = [None, 0, 1]
